@@ -75,6 +75,12 @@ impl<const B: Word> Repr<B> {
             (0, false)
         };
 
+        // only the sign in front (already removed) and the sign of the scale are allowed, the integer parser
+        // would accept another `+` in front of the integral and of the fractional part
+        if src.contains('+') {
+            return Err(ParseError::InvalidDigit);
+        }
+
         // parse the body of the float number
         let mut exponent = scale;
         let ndigits;
